@@ -23,6 +23,12 @@ inductive Branch where
   | formatMap (p : Precomputed) (coloring : Bool)   -- `precomputed_format.format_map(formatter_record)`
   deriving DecidableEq, Repr
 
+/-- the text `_parse_with_formatting` bases its automatic/manual numbering decision on -/
+inductive Subject where
+  | wholeName          -- `field_name == ""` / `field_name.isdigit()`            (string.Formatter's rule)
+  | firstComponent     -- the part before the first `.` or `[`                  (str.format's rule)
+  deriving DecidableEq, Repr
+
 /-- what `Logger._log` does with the message -/
 inductive MsgBranch where
   | strFormat        -- `message.format(*args, **kwargs)`
